@@ -1,5 +1,5 @@
 """C05 - every hit is accounted for exactly once at every stage (structural part)."""
-from sa.rules import accounting, typestate, indexing, separation
+from sa.rules import accounting, typestate, indexing, separation, scaling
 
 LEVEL = 'other'
 
@@ -15,5 +15,7 @@ def check(ctx):
     accounting.ncomp_rewritten(ctx, 'C05-R7')
     separation.remerge_bookkeeping(ctx, 'C05-R8')
     accounting.split_when_counted(ctx, 'C05-R9')
+    # R10: the heights handed to the slicing stay valid heights: the min-max scaling never divides by an empty range
+    scaling.positive_span(ctx, 'C05-R10')
     ctx.undecided += ['that scikit-learn returns one label per row; that every mixture component is populated '
                       '(run-time assert in layer.ncomp_from_gmm); that k sub-components give k layers numerically']
